@@ -100,22 +100,6 @@ theorem C13_deterministic (W : Cfg) (t : Tmpl) (d : DNA) (v₁ v₂ : Tmpl)
 
 /-! ## Purity: histories of calls -/
 
-/-- The calls of the public API on one template. -/
-inductive Op where
-  | decode (d : DNA)
-  | encode (v : Tmpl)
-
-inductive Res where
-  | value (r : Except Err Tmpl)
-  | dna (r : Except Err DNA)
-
-/-- A history of calls and their results. The model has no state besides the template: this is the
-*claim* that the code is held to (decode / encode keep no cache, hand out no shared objects). -/
-def runOps (W : Cfg) (t : Tmpl) : List Op → List Res
-  | [] => []
-  | .decode d :: ops => .value (decode W t d) :: runOps W t ops
-  | .encode v :: ops => .dna (encode W t v) :: runOps W t ops
-
 theorem runOps_append (W : Cfg) (t : Tmpl) (a b : List Op) :
     runOps W t (a ++ b) = runOps W t a ++ runOps W t b := by
   induction a with
